@@ -800,3 +800,67 @@ func (c *Ctx) needsOddOffsetSize(sc scope, ret *ssa.Return, depth int) bool {
 	}
 	return true
 }
+
+func init() {
+	reg := registry["C16"]
+	reg.Meta.Rules["C16.8"] = "an element encoder writes with the element width it was told: in a function with an element-size parameter, every PutUintN(buf[i*K:], ...) lies on a path where that parameter is known to equal K (= N/8); otherwise a value slice of another width passes the size check with an equal element count and the write runs past the buffer (a panic instead of an error)"
+	reg.Rules = append(reg.Rules, func(c *Ctx, r *Result) {
+		n := 0
+		for _, fn := range c.LibFuncs() {
+			if shortPkg(fnPkgPath(fn)) != "hdf5" || fn.Blocks == nil {
+				continue
+			}
+			var es *ssa.Parameter
+			for _, p := range fn.Params {
+				ln := strings.ToLower(p.Name())
+				if (ln == "elemsize" || ln == "elementsize") && isIntType(p.Type()) {
+					es = p
+				}
+			}
+			if es == nil {
+				continue
+			}
+			fb := c.FB(fn)
+			for _, site := range callsIn(fn) {
+				call, ok := site.(*ssa.Call)
+				if !ok {
+					continue
+				}
+				name := c.calleeName(call)
+				w := int64(0)
+				switch {
+				case strings.HasSuffix(name, "PutUint16"):
+					w = 2
+				case strings.HasSuffix(name, "PutUint32"):
+					w = 4
+				case strings.HasSuffix(name, "PutUint64"):
+					w = 8
+				}
+				if w == 0 || !strings.Contains(name, "binary") {
+					continue
+				}
+				// destination buf[i*K:]: the stride K
+				args := call.Call.Args
+				sl, ok := args[len(args)-2].(*ssa.Slice)
+				if !ok || sl.Low == nil {
+					continue
+				}
+				l := fb.lin(sl.Low)
+				stride := int64(0)
+				for _, coef := range l.T {
+					stride = coef
+				}
+				if len(l.T) != 1 || stride <= 1 {
+					continue // not an element loop
+				}
+				n++
+				e := fb.lin(es)
+				ok2 := fb.ProveGE0At(e.add(linConst(stride), -1), call) && fb.ProveGE0At(linConst(stride).add(e, -1), call)
+				r.Check(ok2 && stride == w, "C16.8", c.Name(fn)+"#put"+itoa(int(w*8))+"-under-matching-element-size", c.InstrPos(call), "elements are written "+itoa(int(w))+" bytes wide at stride "+itoa(int(stride))+"; on this path "+es.Name()+" == "+itoa(int(stride))+" must be established")
+			}
+		}
+		if n == 0 {
+			r.Undec("C16.8", "hdf5#element-encoders", "", "no strided PutUintN in a function with an element-size parameter")
+		}
+	})
+}
